@@ -11,6 +11,31 @@ CHECKS = {
             "Every distance call made by the workload (all ordered triples of a 56/110-value special lattice per space setting, plus 2e4/4e5 random triples, 28-74 space settings incl. compounds with weights 0/1e-3/1/50 and the erased *_dyn interface) is checked online against the metric axioms, the diameter bound, representation independence and an independent atan2-based reference. Exploration: holds on the executions observed, nothing more.",
             "Trusted: the reference formulas, IEEE-754 arithmetic, tolerances stated in the evidence. Inputs above 1e100 in R^n are outside the explored domain.",
             "DESIGN.md section 5 C09"),
+    "C10": (True, "exploration",
+            "runtime oracle over executed interpolate calls: endpoint, constant-speed law, canonical form, reversal, erased-interface equality",
+            "Every interpolate call of the workload (all ordered pairs of a 60/120-value special lattice x 10 values of t per space setting, plus seeded random pairs) is checked online against t*d / (1-t)*d, canonical form, I(b,a,1-t) and the *_dyn interface. Holds on the executions observed.",
+            "Trusted: the space's own distance for measuring (judged separately by C09), stated tolerances (5e-6 for the SO3 normalised-LERP branch).",
+            "DESIGN.md section 5 C10"),
+    "C11": (True, "exploration",
+            "runtime assertions on sample_uniform / enforce_bounds / satisfies_bounds executions with an independent bounds test and a draw-budgeted generator",
+            "Hostile states (far outside, on and one ulp around the boundary, non-canonical angles, zero and non-unit quaternions) are enforced and 2e3/4e4 samples are drawn per constructible bound setting (about 150/400 settings over all six spaces); each execution is checked for agreement of the three operations, canonical form, idempotence, an independent bounds test and absence of panics.",
+            "Trusted: reference bounds test with 1e-9 (2.5e-7 for SO3) allowance. SO3 cones in [1e-9,0.1) rad are enforced but not sampled.",
+            "DESIGN.md section 5 C11"),
+    "C12": (True, "exploration",
+            "exhaustive enumeration of a finite constructor-argument lattice, each execution judged by a well-formedness oracle and followed by usability probes under a panic monitor",
+            "All constructor argument tuples of the C12 lattice (about 1.9 million executions: dimension x bounds-length combinations, all ordered bound pairs over 20 special values, 939 angles, 194 481 quaternions) are executed; Ok results must store well-formed bounds and survive sampling and bounds operations without panicking, Err results must be the documented variant for a real fault. The lattice is enumerated completely; nothing is claimed outside it.",
+            "Trusted: the well-formedness predicate written in the harness; 'Err for out-of-range but overlapping SO2 intervals' is accepted either way.",
+            "DESIGN.md section 5 C12"),
+    "C13": (True, "exploration",
+            "differential runtime check: every compound / SE2 / SE3 operation against the same operation carried out on typed component spaces",
+            "Compound distance, interpolation, enforce, satisfies, sampling (same generator stream) and resolution are compared, bit for bit except for the 1e-12 relative distance law, with the typed component spaces for all ordered layouts of 1-2 components (quick) / 1-4 components (thorough, 2800 layouts), and SE2/SE3 against the explicit compound with weights (1,w); also through the erased interface.",
+            "Trusted: component operations (judged by C09-C12).",
+            "DESIGN.md section 5 C13"),
+    "C14": (True, "exploration",
+            "statistical runtime monitor: DKW goodness-of-fit of large samples against exact marginal laws and two-sample DKW independence tests at alpha = 1e-9",
+            "2e5 (quick) / 2e6 (thorough) samples per setting are drawn through sample_uniform and every scalar statistic is compared with its exact law; a deviation above the DKW epsilon (7.3e-3 / 2.3e-3) is a violation with false-alarm probability below 1e-6 per run. Biases below epsilon are invisible.",
+            "Trusted: ChaCha8 as the source of randomness; exact marginal laws derived in DESIGN.md.",
+            "DESIGN.md section 5 C14"),
 }
 
 NOT_YET = {
